@@ -211,9 +211,9 @@ Proof.
 Qed.
 
 Lemma in_filter_map : forall (A B : Type) (f : A -> option B) (l : list A) (y : B),
-  In y (filter_map f l) <-> exists x, In x l /\ f x = Some y.
+  In y (MoveGen.filter_map f l) <-> exists x, In x l /\ f x = Some y.
 Proof.
-  intros A B f l y. induction l as [|a tl IH]; cbn [filter_map In].
+  intros A B f l y. induction l as [|a tl IH]; cbn [MoveGen.filter_map In].
   - split; [intros [] | intros [x [[] _]]].
   - destruct (f a) as [b|] eqn:E; cbn [In]; rewrite IH; split.
     + intros [->|[x [Hx Hf]]]; [exists a; auto | exists x; auto].
@@ -293,9 +293,9 @@ Qed.
 
 Lemma map_fst_filter_map : forall (A B : Type) (f : A -> option (A * B)) (l : list A),
   (forall x y, f x = Some y -> fst y = x) ->
-  map fst (filter_map f l) = filter (fun x => match f x with Some _ => true | None => false end) l.
+  map fst (MoveGen.filter_map f l) = filter (fun x => match f x with Some _ => true | None => false end) l.
 Proof.
-  intros A B f l Hf. induction l as [|a tl IH]; cbn [filter_map filter map]; [reflexivity|].
+  intros A B f l Hf. induction l as [|a tl IH]; cbn [MoveGen.filter_map filter map]; [reflexivity|].
   destruct (f a) as [y|] eqn:E; [|exact IH]. cbn [map]. rewrite (Hf a y E), IH. reflexivity.
 Qed.
 
